@@ -3,6 +3,7 @@ mod common;
 mod gen;
 mod streams;
 mod oracle;
+mod refimpl;
 
 use std::collections::HashMap;
 
